@@ -18,6 +18,55 @@ CLAIMS = {
    technique='TLC enumeration of all API call sequences of the DKG state-machine spec (DKGApi.tla), each replayed on a real instance with the prescribed result classes; metamorphic non-interference replay',
    text='DKGApi.tla states the documented state machine (phase, timeouts taken, handler bodies of DKGNode.tla) and TLC checks its rules as invariants while enumerating every call sequence up to a length bound behind forced prefixes; every sequence is executed on a real instance of each protocol and role, the class of every call and Running() must be the prescribed ones, and the sequence with its rejected calls removed must be observationally identical.',
    note='n=3, t=1, reduced alphabet of 17 calls, exhaustive to length 3 (4 thorough) behind 5 forced prefixes, longer sequences sampled; reuse after End excluded as the property says.'),
+
+ 'C01': dict(level='model_checking', design='5 C01, 4.5',
+   technique='TLC check of the staged Verify pipeline against its definition over the symbolic pairing algebra (BLSVerify.tla) + every enumerated class concretised with reference arithmetic and executed on the real Verify/Sign',
+   text='The acceptance set of Verify is decided on the model (procedure = definition for every key form x hasher x signature class, negative control: membership check dropped) and every terminal class combination is built with independent curve arithmetic from the library hash point and run on the real code, the model verdict being the oracle; plus all single-bit flips and lengths 0..200.',
+   note='H(m) comes from the library (signature under sk=1): a hash-to-curve defect consistent between Sign and Verify is not visible; classes are structured, not all 2^384 strings.'),
+ 'C02': dict(level='model_checking', design='5 C02, 4.5',
+   technique='TLC check of both groupings with their Go/C bookkeeping, for every input list and every map iteration order, against the pairing-product definition (BLSAggVerify.tla) + every enumerated input executed on the real functions',
+   text='BLSAggVerify.tla models the two maps, the grouping choice, the flattening and the offset-driven C loops and checks verdict = definition for all lists up to the bound, all signature classes and all iteration orders; each case is concretised (distinct objects of equal points, cancelling keys, identity) and run on the real VerifyBLSSignatureManyMessages / OneMessage in two orders.',
+   note='Lists up to length 3 (4 thorough) exhaustively, 7..33 groups sampled; H(m) from the library.'),
+ 'C03': dict(level='model_checking', design='5 C03, 4.5',
+   technique='TLC check of pre-marking, tree build/walk and result merge against per-index verification for every class assignment (BLSBatch.tla, negative controls: constant coefficients, wrong split) + replay on the real batch verification',
+   text='Every assignment of 9 entry classes to n<=5 positions (6 classes to n<=7 thorough) is checked on the model and executed on the real code with concretised cancelling pairs / swaps / rotations, identity keys, malformed, short and non-G1 signatures; each batch is compared with the model and with per-index real Verify.',
+   note='Internal randomness sampled (2 runs per batch); false alarm needs a 2^-128 coincidence.'),
+ 'C04': dict(level='model_checking', design='5 C04, 4.5',
+   technique='TLC enumeration of key multisets / cuts with the homomorphism laws checked in the symbolic algebra (BLSAggregation.tla) + real aggregation functions compared with reference group arithmetic',
+   text='Every sequence of base keys (with duplicates and inverses) and every cut is enumerated; the real aggregate keys, signatures, removals, nestings and permutations are compared byte-for-byte with reference G1/G2 arithmetic on the concrete scalars, including identity cases and typed errors.',
+   note='Sequences up to length 4 (5 thorough); one message per case.'),
+ 'C05': dict(level='model_checking', design='5 C05, 4.5',
+   technique='TLC check of each decoder as a staged decision tree against the canonical acceptance set (Serialization.tla) + every class concretised with reference encoders and run through the real decoders and encoders',
+   text='Acceptance = canonical encodings only is checked on the model for every (decoder, length, flag bits, coordinate/scalar class) and on the real decoders with re-encoding, plus every single-bit flip / prefix byte of valid encodings judged by reference decompression and subgroup tests; the G2 coefficient-order deviation from the cited ZCash format is a known finding.',
+   note='Known finding C05:bls-g2:fp2-order (open, cannot be repaired without editing pinned tests).'),
+ 'C06': dict(level='model_checking', design='5 C06, 4.2',
+   technique='TLC check of the transcribed Lagrange computation (limb batching, sign tracking) over F_257 for every enumerated index sequence (ThresholdMath.tla) and of the object invariants (ThresholdSigSeq.tla) + replay against reference interpolation in E1',
+   text='The batching/sign logic is proved to interpolate every polynomial for all ordered subsets (n<=5/6) and structured long sequences; each sequence is run through real keygen, stateless and stateful reconstruction and compared with reference interpolation and group-key verification; all operation sequences on the object are replayed with prescribed return classes.',
+   note='Field arithmetic reached only through replays; exhaustive for small n, structured beyond.'),
+ 'C13': dict(level='model_checking', design='5 C13, 4.4',
+   technique='TLC check of the sponge write loop invariants for every write length and of hasher stream semantics (Hasher.tla), KMAC bytepad lengths (KmacPad.tla) + histories and complete length/split sweeps replayed against independent references',
+   text='Buffer invariants hold for every length 0..2*rate+1 at the real rates; every enumerated operation history is replayed on the real hashers of its class and compared with stdlib / SP 800-185 references; all lengths 0..4*rate x all 2-splits, fresh objects, dirty ComputeHash, one-shot helpers, KMAC key/customizer/output grids incl. block-boundary keys.',
+   note='Keccak-f itself is trusted to the reference comparison; sponge objects not written after SumHash without Reset.'),
+ 'C14': dict(level='model_checking', design='5 C14, 4.3',
+   technique='TLC enumeration of read / store-restore behaviours of the PRG stream machine with SameStream / RestoreResumes invariants (ChaChaPRG.tla) + replay against an independent RFC 8439 keystream',
+   text='All sequences over boundary read sizes, every store offset 0..200 (321 thorough) and crafted states around 2^32 bytes are enumerated with the prescribed keystream intervals and replayed on the real PRG with random seeds / customizers; derived UintN / permutation outputs are compared after restore.',
+   note='Seeds and customizers sampled; block counter beyond 2^31 blocks not modelled.'),
+ 'C15': dict(level='model_checking', design='5 C15, 4.3',
+   technique='TLC counting proof of one-attempt uniformity and Fisher-Yates bijections (Sampling.tla) + the real helpers run on every one-attempt tape through the hook random.NewVerifRand with preimage counting',
+   text='Exact uniformity is a counting statement checked by TLC for n<=64 (256 thorough) and measured on the real UintN for every n<=4096 (65536 thorough) over all chunks; permutations/samples: every draw sequence for populations <=5 (7) compared with the model outcome.',
+   note='Uniformity in the source bytes; larger n by structured and sampled tapes.'),
+ 'C16': dict(level='model_checking', design='5 C16, 4.5',
+   technique='TLC check of PoP soundness in the algebra and of KMAC key-string separation for every tag over a fragment alphabet (PoP.tla) + replay with an independently rebuilt PoP hasher',
+   text='No application tag built from suite fragments makes the signature key equal the PoP key; every (key, candidate) class and every crafted tag is executed on BLSGeneratePOP / BLSVerifyPOP / Verify.',
+   note='Tags up to 3 (4) fragments plus long/binary ones.'),
+ 'C17': dict(level='model_checking', design='5 C17, 4.5',
+   technique='TLC check of the staged SPOCKVerify against the bilinear definition for all class combinations, swap symmetry (SPoCK.tla) + replay on the real functions',
+   text='All 1600 (key form, proof class)^2 combinations are decided on the model (negative control: second membership check dropped) and executed on the real SPOCKVerify in both orders; Prove/VerifyAgainstData compared with Sign/Verify.',
+   note='H(m) from the library.'),
+ 'C18': dict(level='model_checking', design='5 C18, 4.2',
+   technique='TLC linearisability checking of recorded concurrent histories of the real object against the sequential specification (ThresholdSigLin.tla), plus TLC check of the object invariants (ThresholdSigSeq.tla)',
+   text='Goroutines hammer one real inspector/participant; invocations and responses are stamped with one atomic counter; TLC searches a linearisation for every history (rejection = violation); a corrupted history must be rejected (negative control).',
+   note='Only schedules the Go scheduler produces (with yields) are explored.'),
 }
 
 checks = []
